@@ -1,5 +1,5 @@
 (* Correspondence for C08: library writer -> library reader -> library writer. *)
-From PNC Require Export Base.Util Base.Words Model.Uamiv Model.Lbdy Model.One3d Model.TempHp.
+From PNC Require Export Base.Util Base.Words Model.Uamiv Model.YearEnd Model.Lbdy Model.One3d Model.TempHp.
 From PNC Require Export Corr.C09.
 Local Open Scope Z_scope.
 
@@ -37,7 +37,7 @@ Definition year_end_derive (u : uamiv) (hours : list (Z * Z)) : bool :=
 Definition check (c : case_t) : verdict :=
   match c with
   | W u hours derive w1 open_ok v tflag etflag w2 =>
-    let iu := if derive then derive_u u (map fst hours) else u in
+    let iu := if derive then derive_u_r u (map fst hours) else u in
     let f := zlist_eqb w1 (enc iu)
              && match mm_read w1 (4 * Z.of_nat (length w1)) with
                 | Ok v' => open_ok && view_eqb_nd v' v
@@ -49,7 +49,7 @@ Definition check (c : case_t) : verdict :=
              && list_eqb pair_eqb tflag (spec_camx_time (bdates u) (map fst hours))
              && list_eqb pair_eqb etflag (spec_camx_time (edates u) (map snd hours))
              && zlist_eqb w2 w1 in
-    (f, s, if derive && year_end_derive u hours then 1%nat else 0%nat)
+    (f, s, 0%nat)
   | R8 ref recs w_ok written =>
     (zlist_eqb (frame recs) ref,
      w_ok && zlist_eqb written ref
@@ -74,5 +74,5 @@ Definition check (c : case_t) : verdict :=
                   && w2_ok && zlist_eqb w2 w1 in
     let s_etflag := list_eqb pair_eqb etflag (spec_camx_time (lb_edates l) (map snd hours)) in
     (f, s_rest && s_etflag,
-     if lb_year_end l hours then 1%nat else 0%nat)
+     0%nat)
   end.
